@@ -316,7 +316,7 @@ fn spawn_worker(kind: &str, extra: &[String]) -> Worker {
 static POOL_HUNG: std::sync::atomic::AtomicBool = std::sync::atomic::AtomicBool::new(false);
 
 pub fn job_timeout() -> Duration {
-    Duration::from_secs(std::env::var("XSMC_JOB_TIMEOUT").ok().and_then(|s| s.parse().ok()).unwrap_or(90))
+    Duration::from_secs(std::env::var("XSMC_JOB_TIMEOUT").ok().and_then(|s| s.parse().ok()).unwrap_or(120))
 }
 
 /// Run `jobs` on `n` worker sub-processes; results are returned in job order. A worker that
